@@ -5,7 +5,8 @@ Trace == ndJsonDeserialize(IOEnv.VERIF_TRACE)
 FailSet(t) ==
    (IF C03_OK(t.cfg, t.input, t.obs) THEN {} ELSE {"C03"}) \cup
    (IF C09_OK(t.cfg, t.input, t.obs) THEN {} ELSE {"C09"}) \cup
-   (IF C04_OK(t.cfg, t.input, t.obs) THEN {} ELSE {"C04"})
+   (IF C04_OK(t.cfg, t.input, t.obs) THEN {} ELSE {"C04"}) \cup
+   (IF C01_OK(t.cfg, t.input, t.obs) THEN {} ELSE {"C01"})
 Verdict(t) == [case |-> t.case, fails |-> FailSet(t), drift |-> ~(Conforms(ModelOut(t.cfg, t.input), t.obs) /\ ConformsInfo(t.cfg, t.input, t.obs))]
 Init == l = 1
 Next == /\ l <= Len(Trace)
